@@ -58,6 +58,8 @@ def process_hourly(run, results):
         doc = json.loads(res["js"])
         run.dist("hourly: coefficient matrix", "%d x %d" % (len(res["state"]["coef"]), len(res["state"]["coef"][0]) if res["state"]["coef"] else 0))
         run.dist("hourly: temporal cluster rows", len(res["state"]["clusters"]))
+        fo = res.get("feature_order") or [[], []]
+        run.dist("hourly: settings.train_features vs sorted ts_features", "same order" if fo[0] == fo[1] else "different order %s / %s" % (fo[0], fo[1]))
         if not edge_keys_int(res["state"]):
             run.corr_failures.append({"stream": "state_hourly", "case": {"job": res["job"]}, "impl": "non-integer keys in _T_edge_bin_coeffs",
                                       "model": "integer keys"})
